@@ -16,7 +16,7 @@ def main():
     puppet.install_livelock_guard()
     rng = random.Random(seed)
     for i in range(n):
-        p = storm.timing_program(rng) if i % 2 == 0 else storm.tick_program(rng)
+        p = (storm.timing_program, storm.tick_program, storm.rendezvous_program)[i % 3](rng)
         puppet.run_program(p['roots'], nroots=len(p['roots']), start=p['start'])
     with open(dst, 'w') as fh:
         json.dump(ktrace.collect(), fh)
